@@ -371,6 +371,10 @@ class Scripted:
         try:
             if self.raw is not None:
                 out = self.raw
+            elif self.request is None:
+                # what a server does with a request it cannot parse: a request-level failure without Operation
+                out = build_response(self.version, None, [Item(RS.OPERATION_FAILED, RR.INVALID_MESSAGE,
+                                                              'Error parsing request message.', op=None)], self.header_version)
             else:
                 out = build_response(self.version, rop, self.items, self.header_version)
                 if self.mangle is not None:
@@ -1271,6 +1275,11 @@ def request_expectations(op, kw, p, version):
                 got.encryption_key_information.unique_identifier if got.encryption_key_information else None)
             add('encryption key parameters', cp_expected(eki.get('cryptographic_parameters')) if eki else None,
                 cp_pairs(got.encryption_key_information.cryptographic_parameters) if got.encryption_key_information else None)
+            mki = spec.get('mac_signature_key_information')
+            add('MAC/signature key id', mki['unique_identifier'] if mki else None,
+                got.mac_signature_key_information.unique_identifier if got.mac_signature_key_information else None)
+            add('MAC/signature key parameters', cp_expected(mki.get('cryptographic_parameters')) if mki else None,
+                cp_pairs(got.mac_signature_key_information.cryptographic_parameters) if got.mac_signature_key_information else None)
     elif n == 'get_attributes':
         add('unique_identifier', kw['uid'], p.unique_identifier)
         add('attribute_names', sorted(kw['attribute_names'] or []), sorted(p.attribute_names or []))
@@ -1308,6 +1317,8 @@ def request_expectations(op, kw, p, version):
             exp.append(('Cryptographic Length', repr(kw['cryptographic_length'])))
         if kw.get('cryptographic_algorithm'):
             exp.append(('Cryptographic Algorithm', repr(kw['cryptographic_algorithm'])))
+        if kw.get('cryptographic_usage_mask'):
+            exp.append(('Cryptographic Usage Mask', repr(mask_of(kw['cryptographic_usage_mask']))))
         add('attributes', sorted(exp), attr_pairs(p.template_attribute))
     elif n == 'check':
         add('unique_identifier', kw['uid'], p.unique_identifier)
@@ -1347,6 +1358,7 @@ def request_expectations(op, kw, p, version):
             add('attribute', to_val(kw['attribute']), to_val(p.attribute))
         else:
             add('new_attribute', to_val(kw['new_attribute']), to_val(p.new_attribute))
+            add('current_attribute', to_val(kw.get('current_attribute')), to_val(p.current_attribute))
     else:
         raise HarnessError('no request expectation for ' + n)
     return E
@@ -1444,3 +1456,197 @@ def with_batch_item_fields(frame, before_status=b'', after_payload=b'', after_me
     out += after_payload
     new_bi = ttlv(T.BATCH_ITEM.value, 1, out)
     return ttlv(T.RESPONSE_MESSAGE.value, 1, frame[8:bi_off] + new_bi + frame[bi_off + 8 + bl:])
+
+
+# ---------------------------------------------------------------------- argument menus: every optional argument
+def full_cp_dict(rng):
+    """All 13 cryptographic parameters present (truthy values)."""
+    return {'block_cipher_mode': enums.BlockCipherMode.CBC, 'padding_method': enums.PaddingMethod.PKCS5,
+            'hashing_algorithm': enums.HashingAlgorithm.SHA_256, 'key_role_type': enums.KeyRoleType.KEK,
+            'digital_signature_algorithm': enums.DigitalSignatureAlgorithm.SHA256_WITH_RSA_ENCRYPTION,
+            'cryptographic_algorithm': CA.AES, 'random_iv': True, 'iv_length': 96, 'tag_length': 16, 'fixed_field_length': 32,
+            'invocation_field_length': 64, 'counter_length': 32, 'initial_counter_value': 1}
+
+
+def arg_menu(op, rng, v):
+    """(required keyword arguments, optional keyword arguments with a value for EVERY optional argument) of a Pie method."""
+    n = op.name
+    v2 = v >= KV.KMIP_2_0
+    uid = gen_uid(rng)
+    if n == 'create':
+        return (dict(algorithm=CA.AES, length=256),
+                dict(operation_policy_name='default', name=gen_text(rng, 1, 12), cryptographic_usage_mask=[CUM.WRAP_KEY, CUM.MAC_GENERATE]))
+    if n == 'create_key_pair':
+        return (dict(algorithm=CA.RSA, length=1024),
+                dict(operation_policy_name='default', public_name='pub' + gen_text(rng, 1, 6), public_usage_mask=[CUM.VERIFY],
+                     private_name='prv' + gen_text(rng, 1, 6), private_usage_mask=[CUM.SIGN]))
+    if n == 'register':
+        return dict(managed_object=gen_pie_object(rng)), {}
+    if n == 'locate':
+        return {}, dict(maximum_items=5, offset_items=2, storage_status_mask=3,
+                        object_group_member=enums.ObjectGroupMember.GROUP_MEMBER_DEFAULT,
+                        attributes=[gen_attribute(rng), kdrv.attr('OBJECT_TYPE', enums.ObjectType.SYMMETRIC_KEY)])
+    if n == 'get':
+        spec = {'wrapping_method': enums.WrappingMethod.ENCRYPT_THEN_MAC_SIGN,
+                'encryption_key_information': {'unique_identifier': 'e' + uid, 'cryptographic_parameters': {'block_cipher_mode': enums.BlockCipherMode.NIST_KEY_WRAP}},
+                'mac_signature_key_information': {'unique_identifier': 'm' + uid, 'cryptographic_parameters': {'hashing_algorithm': enums.HashingAlgorithm.SHA_512}},
+                'attribute_names': ['Name', 'Cryptographic Length'], 'encoding_option': enums.EncodingOption.TTLV_ENCODING}
+        return {}, dict(uid=uid, key_wrapping_specification=spec)
+    if n == 'get_attributes':
+        return {}, dict(uid=uid, attribute_names=['Name', 'State', 'Object Type'])
+    if n in ('get_attribute_list', 'activate', 'destroy'):
+        return {}, dict(uid=uid)
+    if n == 'revoke':
+        return (dict(revocation_reason=enums.RevocationReasonCode.KEY_COMPROMISE),
+                dict(uid=uid, revocation_message=gen_text(rng, 1, 20), compromise_occurrence_date=1500000000 + rng.randrange(10 ** 6)))
+    if n == 'mac':
+        return dict(data=gen_bytes(rng, 1, 20), uid=uid), dict(algorithm=CA.HMAC_SHA256)
+    if n == 'rekey':
+        return {}, dict(uid=uid, offset=3600, activation_date=1600000000, process_start_date=1600000100,
+                        protect_stop_date=1700000000, deactivation_date=1800000000)
+    if n == 'derive_key':
+        return (dict(object_type=enums.ObjectType.SYMMETRIC_KEY, unique_identifiers=[uid, 'k' + uid],
+                     derivation_method=enums.DerivationMethod.PBKDF2,
+                     derivation_parameters={'cryptographic_parameters': full_cp_dict(rng), 'initialization_vector': gen_bytes(rng, 8, 16),
+                                            'derivation_data': gen_bytes(rng, 1, 16), 'salt': gen_bytes(rng, 4, 8), 'iteration_count': 1000}),
+                dict(cryptographic_length=256, cryptographic_algorithm=CA.AES, cryptographic_usage_mask=[CUM.ENCRYPT, CUM.DECRYPT]))
+    if n == 'check':
+        return dict(cryptographic_usage_mask=[CUM.ENCRYPT]), dict(uid=uid, usage_limits_count=10, lease_time=60)
+    if n in ('encrypt', 'decrypt'):
+        return dict(data=gen_bytes(rng, 1, 32)), dict(uid=uid, cryptographic_parameters=full_cp_dict(rng), iv_counter_nonce=gen_bytes(rng, 12, 16))
+    if n == 'sign':
+        return dict(data=gen_bytes(rng, 1, 32)), dict(uid=uid, cryptographic_parameters=full_cp_dict(rng))
+    if n == 'signature_verify':
+        return dict(message=gen_bytes(rng, 1, 32), signature=gen_bytes(rng, 8, 32)), dict(uid=uid, cryptographic_parameters=full_cp_dict(rng))
+    if n == 'delete_attribute':
+        if not v2:
+            return dict(attribute_name='Name'), dict(unique_identifier=uid, attribute_index=2)
+        return (dict(attribute_reference=cobjects.AttributeReference(vendor_identification='Acme', attribute_name='Name')),
+                dict(unique_identifier=uid))
+    if n == 'set_attribute':
+        return dict(attribute_name='Cryptographic Length', attribute_value=256), dict(unique_identifier=uid)
+    if n == 'modify_attribute':
+        if not v2:
+            return dict(attribute=kdrv.attr('NAME', kdrv.name_value(gen_text(rng, 1, 8)), 1)), dict(unique_identifier=uid)
+        return (dict(new_attribute=cobjects.NewAttribute(attribute=primitives.Integer(256, enums.Tags.CRYPTOGRAPHIC_LENGTH))),
+                dict(unique_identifier=uid,
+                     current_attribute=cobjects.CurrentAttribute(attribute=primitives.Integer(128, enums.Tags.CRYPTOGRAPHIC_LENGTH))))
+    raise HarnessError('no argument menu for ' + n)
+
+
+# names request_expectations indexes directly (absent optional = None)
+ALL_KEYS = {
+    'create': ['operation_policy_name', 'name', 'cryptographic_usage_mask'],
+    'create_key_pair': ['operation_policy_name', 'public_name', 'public_usage_mask', 'private_name', 'private_usage_mask'],
+    'locate': ['maximum_items', 'offset_items', 'storage_status_mask', 'object_group_member', 'attributes'],
+    'get': ['uid', 'key_wrapping_specification'], 'get_attributes': ['uid', 'attribute_names'], 'get_attribute_list': ['uid'],
+    'activate': ['uid'], 'destroy': ['uid'], 'revoke': ['uid', 'revocation_message', 'compromise_occurrence_date'],
+    'mac': ['algorithm'], 'rekey': ['uid', 'offset'], 'check': ['uid', 'usage_limits_count', 'lease_time'],
+    'encrypt': ['uid', 'cryptographic_parameters', 'iv_counter_nonce'], 'decrypt': ['uid', 'cryptographic_parameters', 'iv_counter_nonce'],
+    'sign': ['uid', 'cryptographic_parameters'], 'signature_verify': ['uid', 'cryptographic_parameters'],
+    'delete_attribute': ['unique_identifier', 'attribute_name', 'attribute_index'], 'set_attribute': ['unique_identifier'],
+    'modify_attribute': ['unique_identifier'],
+}
+
+
+def menus_for(op, rng, v):
+    """[(label, kwargs)]: no optional argument, every optional argument, and each optional argument alone."""
+    out = []
+    req, opt = arg_menu(op, rng, v)
+    base = {k: None for k in ALL_KEYS.get(op.name, [])}
+    names = list(opt)
+    choices = [('none', [])] + ([('all', names)] if names else []) + ([('only-' + k, [k]) for k in names] if len(names) > 1 else [])
+    for label, chosen in choices:
+        kw = dict(base)
+        kw.update(req)
+        kw.update({k: opt[k] for k in chosen})
+        out.append((label, kw))
+    return out
+
+
+# ---------------------------------------------------------------------- falsy-but-present values in successful answers
+def _uidattr(s):
+    return cattrs.UniqueIdentifier(s)
+
+
+FALSY_PAYLOADS = {
+    'create': [('uid-empty', lambda rng, v: payloads.CreateResponsePayload(object_type=enums.ObjectType.SYMMETRIC_KEY, unique_identifier=''))],
+    'register': [('uid-empty', lambda rng, v: payloads.RegisterResponsePayload(unique_identifier=''))],
+    'create_key_pair': [('uids-empty', lambda rng, v: payloads.CreateKeyPairResponsePayload(private_key_unique_identifier='', public_key_unique_identifier=''))],
+    'locate': [('no-ids', lambda rng, v: payloads.LocateResponsePayload(unique_identifiers=[])),
+               ('empty-id', lambda rng, v: payloads.LocateResponsePayload(unique_identifiers=['', gen_uid(rng)]))],
+    'get_attributes': [('no-attributes', lambda rng, v: payloads.GetAttributesResponsePayload(unique_identifier=gen_uid(rng), attributes=[]) if v < KV.KMIP_2_0 else None),
+                       ('uid-empty', lambda rng, v: payloads.GetAttributesResponsePayload(unique_identifier='', attributes=[gen_attribute(rng, v)]))],
+    'mac': [('mac-empty', lambda rng, v: payloads.MACResponsePayload(unique_identifier=_uidattr(gen_uid(rng)), mac_data=cobjects.MACData(b'')))],
+    'rekey': [('uid-empty', lambda rng, v: payloads.RekeyResponsePayload(unique_identifier=''))],
+    'derive_key': [('uid-empty', lambda rng, v: payloads.DeriveKeyResponsePayload(unique_identifier=''))],
+    'check': [('count-0', lambda rng, v: payloads.CheckResponsePayload(unique_identifier=gen_uid(rng), usage_limits_count=0)),
+              ('mask-0', lambda rng, v: payloads.CheckResponsePayload(unique_identifier=gen_uid(rng), cryptographic_usage_mask=0)),
+              ('lease-0', lambda rng, v: payloads.CheckResponsePayload(unique_identifier=gen_uid(rng), lease_time=0)),
+              ('all-0', lambda rng, v: payloads.CheckResponsePayload(unique_identifier='', usage_limits_count=0, cryptographic_usage_mask=0, lease_time=0))],
+    'encrypt': [('data-empty', lambda rng, v: payloads.EncryptResponsePayload(unique_identifier=gen_uid(rng), data=b'', iv_counter_nonce=gen_bytes(rng, 8, 16))),
+                ('iv-empty', lambda rng, v: payloads.EncryptResponsePayload(unique_identifier=gen_uid(rng), data=gen_bytes(rng, 1, 16), iv_counter_nonce=b'')),
+                ('both-empty', lambda rng, v: payloads.EncryptResponsePayload(unique_identifier='', data=b'', iv_counter_nonce=b''))],
+    'decrypt': [('data-empty', lambda rng, v: payloads.DecryptResponsePayload(unique_identifier=gen_uid(rng), data=b''))],
+    'sign': [('signature-empty', lambda rng, v: payloads.SignResponsePayload(unique_identifier=gen_uid(rng), signature_data=b''))],
+    'signature_verify': [('uid-empty', lambda rng, v: payloads.SignatureVerifyResponsePayload(unique_identifier='', validity_indicator=enums.ValidityIndicator.INVALID))],
+    'delete_attribute': [('uid-empty', lambda rng, v: payloads.DeleteAttributeResponsePayload(unique_identifier='', attribute=gen_attribute(rng, v)) if v < KV.KMIP_2_0
+                          else payloads.DeleteAttributeResponsePayload(unique_identifier=''))],
+    'set_attribute': [('uid-empty', lambda rng, v: payloads.SetAttributeResponsePayload(unique_identifier=''))],
+    'modify_attribute': [('uid-empty', lambda rng, v: payloads.ModifyAttributeResponsePayload(unique_identifier='', attribute=gen_attribute(rng, v)) if v < KV.KMIP_2_0
+                          else payloads.ModifyAttributeResponsePayload(unique_identifier=''))],
+}
+
+
+def _mask_members(m):
+    return None if m is None else [e for e in enums.CryptographicUsageMask if m & e.value]
+
+
+# KMIPProxy: which payload field each field of the result object / dictionary must carry (the direct oracle's table,
+# written from the documented result fields; (result name, payload attribute, transformation))
+PROXY_EXPECT = {
+    'create': [('uuid', 'unique_identifier', None), ('object_type', 'object_type', None)],
+    'register': [('uuid', 'unique_identifier', None)],
+    'create_key_pair': [('private_key_uuid', 'private_key_unique_identifier', None), ('public_key_uuid', 'public_key_unique_identifier', None)],
+    'rekey_key_pair': [('private_key_uuid', 'private_key_unique_identifier', None), ('public_key_uuid', 'public_key_unique_identifier', None)],
+    'locate': [('uuids', 'unique_identifiers', None)],
+    'get': [('uuid', 'unique_identifier', None), ('object_type', 'object_type', None), ('secret', 'secret', None)],
+    'get_attributes': [('uuid', 'unique_identifier', None), ('attributes', 'attributes', None)],
+    'get_attribute_list': [('uid', 'unique_identifier', None), ('names', 'attribute_names', None)],
+    'activate': [('uuid', 'unique_identifier', None)], 'destroy': [('uuid', 'unique_identifier', None)],
+    'revoke': [('unique_identifier', 'unique_identifier', None)],
+    'mac': [('uuid', 'unique_identifier', None), ('mac_data', 'mac_data', None)],
+    'discover_versions': [('protocol_versions', 'protocol_versions', None)],
+    'rekey': [('unique_identifier', 'unique_identifier', None)], 'derive_key': [('unique_identifier', 'unique_identifier', None)],
+    'check': [('unique_identifier', 'unique_identifier', None), ('usage_limits_count', 'usage_limits_count', None),
+              ('cryptographic_usage_mask', 'cryptographic_usage_mask', _mask_members), ('lease_time', 'lease_time', None)],
+    'encrypt': [('unique_identifier', 'unique_identifier', None), ('data', 'data', None), ('iv_counter_nonce', 'iv_counter_nonce', None)],
+    'decrypt': [('unique_identifier', 'unique_identifier', None), ('data', 'data', None)],
+    'signature_verify': [('unique_identifier', 'unique_identifier', None), ('validity_indicator', 'validity_indicator', None)],
+    'sign': [('unique_identifier', 'unique_identifier', None), ('signature', 'signature_data', None)],
+    'delete_attribute': [('unique_identifier', 'unique_identifier', None), ('attribute', 'attribute', None)],
+    'modify_attribute': [('unique_identifier', 'unique_identifier', None), ('attribute', 'attribute', None)],
+    'set_attribute': [('unique_identifier', 'unique_identifier', None)],
+}
+
+
+def proxy_data_mismatches(opname, obs, payload):
+    """[(field, expected, got)]: fields of what KMIPProxy handed back that differ from the payload of the successful answer."""
+    out = []
+    k = obs[0]
+    if k not in ('result', 'dict', 'payload'):
+        return out
+    r = obs[1]
+    for rname, pname, tr in PROXY_EXPECT.get(opname, []):
+        exp = getattr(payload, pname, None)
+        if tr is not None:
+            exp = tr(exp)
+        if k == 'dict':
+            got = r.get(rname)
+        elif k == 'payload':
+            got = getattr(r, pname, None)
+        else:
+            got = getattr(r, rname, None)
+        if to_val(exp) != to_val(got):
+            out.append((rname, repr(to_val(exp))[:160], repr(to_val(got))[:160]))
+    return out
